@@ -16,8 +16,17 @@ CLAIMED = {
  "C03": ("proof", "Deductive: _find_add_delay (nested loop invariants + lemma L-first-retarget) gives no-conflict and minimality for all schedules; make_next_pulse_slot gives earliest-allowed "
          "start, barrier and no-delay clauses; add_pulse lifts them to the timeline. estimate==actual and align are decided by the bounded stand-in until their Sequence-level contracts are finished.",
          "DESIGN.md section 3 C03"),
+ "C07": ("proof", "Deductive: _PhaseTracker/_QubitRef representation invariants and additive update (witnessed modulo 2pi) proved for __setitem__/increment_phase/"
+         "update_last_used; _phase_shift shifts exactly the targeted trackers (loop invariant + frame); Sequence._add schedules programmed phase + common reference, starts after "
+         "the latest phase shift of its targets, marks targets used and applies the post-phase shift; lemma L-phase-additive lifts single increments to sums of shifts.", "DESIGN.md section 3 C07"),
  "C09": ("proof", "Deductive exceptional postconditions: on every raising path of add_delay / add_pulse / add_target the tracked heap equals the entry heap (exc_safe obligations), "
          "three known findings (multi-step mutators) proved absent outside their witness classes; read-only and replay clauses by the bounded stand-in.", "DESIGN.md section 3 C09"),
+ "C13": ("proof", "Deductive, refusal direction: iff-contracts of _validate_channel (undeclared / EOM-blocked / SLM-waiting) and _validate_add_protocol; the real block_if_measured wrapper "
+         "executed around _delay/_target (refused when measured, before any write); retarget refused on non-local channels and inside EOM. Remaining typestate rules are decided by the bounded stand-in.",
+         "DESIGN.md section 3 C13"),
+ "C15": ("proof", "Deductive: _Schedule.enable_eom/disable_eom against the EOM block invariant: the block stores exactly the chosen setpoint and off-detuning, buffers of the configured "
+         "(clock-adjusted) length after the previous pulse's fall, detuned-delay buffer iff off-detuning != 0, closing at the channel end; _eom_buffer_time and BaseEOM.rise_time leaves. "
+         "Closest off-detuning option and square EOM pulses are decided by the bounded stand-in.", "DESIGN.md section 3 C15"),
  "C10": ("proof", "Deductive: phase-jump buffer bound in make_next_pulse_slot; retarget-after-fall, minimum retarget interval and fixed retarget time as invariants preserved by add_target and "
          "all other writers; same-target retarget inserts nothing.", "DESIGN.md section 3 C10"),
 }
